@@ -479,13 +479,31 @@ func netFailure(msg string) bool {
 // Run executes one episode: a fresh server, the requests one after the other.
 func (e *Engine) Run(ops []string, res *report.Result) *report.Failure {
 	_, f := e.run(ops, nil, 0, res)
-	return f
+	return e.confirm(ops, f, res)
+}
+
+// confirm: a disagreement that consists in a bind failure the model does not predict ("address
+// already in use") can be another process of this machine holding the port for a moment (the
+// engines of several checks may run side by side). Such a history is run once more: a listener
+// that toxiproxy itself left behind fails again, a passer-by does not.
+func (e *Engine) confirm(ops []string, f *report.Failure, res *report.Result) *report.Failure {
+	if f == nil || f.Kind != "disagreement" || !strings.Contains(f.Impl, "address already in use") {
+		return f
+	}
+	time.Sleep(300 * time.Millisecond)
+	_, f2 := e.run(append([]string(nil), f.Ops...), nil, 0, res)
+	if f2 == nil {
+		res.Count("retried:unpredicted-address-in-use-not-reproduced")
+		return nil
+	}
+	return f2
 }
 
 // RunGen executes an episode whose requests are generated on the fly from the latest
 // snapshot (so that most of them address things that exist); returns the requests issued.
 func (e *Engine) RunGen(gen func(snap string) string, n int, res *report.Result) ([]string, *report.Failure) {
-	return e.run(nil, gen, n, res)
+	ops, f := e.run(nil, gen, n, res)
+	return ops, e.confirm(ops, f, res)
 }
 
 func (e *Engine) run(ops []string, gen func(snap string) string, n int, res *report.Result) ([]string, *report.Failure) {
